@@ -146,6 +146,10 @@ def _gen_script(rng, kind, faulty):
         # behaviour of the program that has nothing to do with its result. Derived from tool_seed, not drawn, so that
         # the rest of the generated history is what it was before this fault kind existed
         s["bad_bytes"] = True
+    if kind != "stubpoll" and s["tool_seed"] % 5 == 1:
+        # the program prints a line on STDERR right after it was started; a join() that runs into its timeout sees these
+        # bytes (subprocess hands them over with TimeoutExpired), a later join() gets them in front of the rest
+        s["early_err"] = True
     if kind in ("clustalo", "muscle3", "muscle5", "mafft", "stubmsa") and s["tool_seed"] % 17 == 3:
         # the disk is full at the moment the wrapper writes the program's input files in start(): a failure to launch
         # (derived from tool_seed, not drawn, like bad_bytes)
@@ -1411,9 +1415,12 @@ class Sim:
             if val != p._out:
                 self.fail("getter:wrong-value", kind=rec.kind, op=name, got=str(val)[:100], expected=p._out[:100])
         elif name == "get_stderr":
-            if rec.script.get("bad_bytes") and isinstance(val, str) and val.startswith(p._err) and len(val) > len(p._err):
+            early = sw.early_bytes(rec.script)
+            if early and isinstance(val, str) and val.startswith(sw.EARLY_ERR.decode()) and val.endswith(p._err):
+                pass  # what the program printed first, (a rendering of undecodable bytes), what it printed at the end
+            elif not early and rec.script.get("bad_bytes") and isinstance(val, str) and val.startswith(p._err) and len(val) > len(p._err):
                 pass  # the readable part is there; how the undecodable tail is rendered is the wrapper's choice
-            elif val != p._err:
+            elif early or val != p._err:
                 self.fail("getter:wrong-value", kind=rec.kind, op=name, got=str(val)[:100], expected=p._err[:100])
 
     # -- join ---------------------------------------------------------------------------------------------------
